@@ -27,7 +27,7 @@ DROPPED = ["visibility qualifiers (pub, pub(crate), pub(super))",
            "doc comments and line comments",
            "debug_assert!(..) / debug_assert_eq!(..) / debug_assert_ne!(..) and log::*!(..) statements",
            "display-only statements `<v>.iter().for_each(|e| { crate::display_error(e); });`",
-           "where a unit says msg_rule: message-text expressions (`format!(..)`, `\"literal\".into()`) are replaced by an opaque msg() -> String"]
+           "where a unit says msg_rule: message-text expressions (`format!(..)`, `\"literal\".into()`) are replaced by an opaque opaque_msg()"]
 
 
 class ExtractError(Exception):
@@ -127,13 +127,13 @@ def msg_rule(txt):
         s = i + m.start()
         e = _match_paren(txt, i + m.end() - 1)
         out.append(txt[i:s])
-        out.append("msg()")
+        out.append("opaque_msg()")
         i = e
         m2 = re.match(r"\s*\.into\(\)", txt[i:])  # format!(..).into()
         if m2:
             i += m2.end()
     txt = "".join(out)
-    txt = re.sub(r'"(?:[^"\\]|\\.)*"\s*\.into\(\)', "msg()", txt)
+    txt = re.sub(r'"(?:[^"\\]|\\.)*"\s*\.into\(\)', "opaque_msg()", txt)
     return txt
 
 
